@@ -35,7 +35,7 @@ import (
 // the rest of X inserted where F releases the lock X waits for.
 
 const (
-	blockTimeout = 300 * time.Millisecond // no progress for this long, outside any API call: blocked
+	blockTimeout = 3 * time.Second // no progress for this long, outside any API call: blocked (fallback only; generous so that a loaded machine is not read as a blocked goroutine)
 	pollEvery    = 2 * time.Millisecond
 	// the goroutine dump stops the world: it is taken only for an operation that has been silent this long
 	quietBeforeDump = 4 * time.Millisecond
